@@ -64,15 +64,32 @@ Theorem C14_bin_search_spec : forall from to f,
 Proof. exact bin_search_spec. Qed.
 Print Assumptions C14_bin_search_spec.
 
-(* LID borders (getLIDsBorders over a descending ID table): the scan narrowed to [minLID, maxLID]
-   examines exactly the documents whose MID lies in [qf, qt] - also for MIDs equal to the range
-   ends, RIDs 0 and MaxUint64, duplicates, empty fractions. Hypothesis (DESIGN section 9 #14): the ID (0,0)
-   is not stored when the query starts at 0. *)
+(* thm:C04_lessorequal_shortcuts over this model: sealedIDsIndex.LessOrEqual with its three
+   shortcuts (minimum of the LID's block, minimum of the previous block, RID = MaxUint64) equals
+   the plain comparison at every valid LID of a descending table (blocks of 4096 IDs, block minima
+   as the sealer writes them). *)
+Theorem C14_sealed_le_plain : forall ids lid x, ids_ok ids -> desc_sorted ids ->
+  0 <= lid < Z.of_nat (length (stub_id :: ids)) ->
+  sealed_le (stub_id :: ids) (min_block_ids (stub_id :: ids)) lid x = plain_le (stub_id :: ids) lid x.
+Proof. exact sealed_le_plain. Qed.
+Print Assumptions C14_sealed_le_plain.
+
+(* LID borders (getLIDsBorders over the fraction's own IDs index: sealed_le with block minima when
+   f_sealed, plain comparison when active): the scan narrowed to [minLID, maxLID] examines exactly
+   the documents whose MID lies in [qf, qt] - also for MIDs equal to the range ends, RIDs 0 and
+   MaxUint64, duplicates, empty fractions, any number of ID blocks. Hypothesis (DESIGN section 9
+   #14): the ID (0,0) is not stored when the query starts at 0. *)
 Theorem C14_lid_borders_exact : forall f qf qt,
   ids_ok (f_ids f) -> desc_sorted (f_ids f) -> 0 <= qf -> (qf = 0 -> ~ In (0, 0) (f_ids f)) ->
   frac_scan f qf qt = Some (filter (in_range qf qt) (f_ids f)).
 Proof. exact frac_scan_spec. Qed.
 Print Assumptions C14_lid_borders_exact.
+
+(* the statement really is about the sealed comparison *)
+Example C14_lid_borders_sealed_unfolds : forall ids,
+  frac_le {| f_sealed := true; f_info := active_info 0 []; f_ids := ids |} =
+  sealed_le (stub_id :: ids) (min_block_ids (stub_id :: ids)).
+Proof. reflexivity. Qed.
 
 (* thm:C14_pruning_is_optimisation. Skipping fractions by FilterInRange (borders + occupancy map)
    and narrowing every remaining fraction to its LID borders examines exactly the documents that
@@ -121,7 +138,7 @@ Qed.
 Example C14_frac_ok_witness :
   let c := 1750000000000 in
   let ids := [(c - 60000, 7); (c - 3600000, 0)] in
-  frac_ok {| f_info := sealed_info c (mids_of ids); f_ids := ids |}.
+  frac_ok {| f_sealed := true; f_info := sealed_info c (mids_of ids); f_ids := ids |}.
 Proof.
   cbv zeta. constructor; simpl.
   - intros x [<-|[<-|[]]]; unfold id_ok, two64; simpl; repeat split; try discriminate; reflexivity.
@@ -132,7 +149,7 @@ Proof.
       exfalso; do 2 apply Nat.succ_lt_mono in Hb; apply (Nat.nlt_0_r _ Hb).
   - intros x [<-|[<-|[]]]; unfold two63; split; try discriminate; reflexivity.
   - exists 1750000000000. split; [unfold is_u64, two64; split; [discriminate|reflexivity]|].
-    right. reflexivity.
+    reflexivity.
 Qed.
 
 (* DESIGN section 9 #14, kept as documentation: without the hypothesis on the ID (0,0) the border
@@ -141,7 +158,7 @@ Example C14_borders_zero_id_refuted :
   exists f qf qt, ids_ok (f_ids f) /\ desc_sorted (f_ids f) /\ 0 <= qf /\
     frac_scan f qf qt <> Some (filter (in_range qf qt) (f_ids f)).
 Proof.
-  exists {| f_info := active_info 5 [0]; f_ids := [(0, 0)] |}, 0, 10.
+  exists {| f_sealed := true; f_info := sealed_info 5 [0]; f_ids := [(0, 0)] |}, 0, 10.
   split. { intros x [<-|[]]. unfold id_ok, two64. simpl. repeat split; try discriminate; reflexivity. }
   split. { intros a b Hab Hb. simpl in Hb. destruct b; [|exfalso; apply Nat.succ_lt_mono in Hb; apply (Nat.nlt_0_r _ Hb)].
            destruct a; [reflexivity|exfalso; apply (Nat.nle_succ_0 _ Hab)]. }
